@@ -157,6 +157,35 @@ Exp(k, s, nz, op, c, isv, des) ==
                ELSE EOk(re.sampled \/ im.sampled, re.mid \/ im.mid)
   ELSE ExpReal(k, s, nz, op, c, isv, des)
 
+\* ---- Backend.get_variance / get_standard_error ------------------------------------------------
+\* Always the frequency route; unlike the expectation value, an identity term is not skipped (the code's `pass` falls
+\* through to a simulation of the bare state preparation), so refusals of simulate() surface for identity-only operators too.
+\* (skipE = TRUE is the equally valid implementation that skips identity terms - the variance of a constant is 0 - and is
+\* accepted as well: the property does not depend on it.)
+TermSimsV(skipE, k, s, nz, op, initial, usv, des) ==
+  [j \in 1..Len(Terms(op)) |->
+     IF skipE /\ Terms(op)[j] = "e" THEN Ok("none", FALSE, 9, TRUE, TRUE)
+     ELSE Sim(k, s, nz, IF Terms(op)[j] = "x" THEN Plus(initial) ELSE initial, FALSE, usv, des, FALSE)]
+
+VarReal(skipE, k, s, nz, op, c, isv, des) ==
+  IF ~SvAvail(k) \/ Mixed(c) \/ nz
+  THEN LET e == FirstErr(TermSimsV(skipE, k, s, nz, op, c, isv, des)) IN
+       IF e.cls # "ok" THEN EErr(e.cls, e.tag) ELSE EOk(s # 0, FALSE)
+  ELSE LET r0 == Sim(k, s, nz, c, TRUE, isv, des, FALSE) IN
+       IF r0.cls # "ok" THEN EErr(r0.cls, r0.tag)
+       ELSE LET e == FirstErr(TermSimsV(skipE, k, s, nz, op, "E2", TRUE, des)) IN
+            IF e.cls # "ok" THEN EErr(e.cls, e.tag) ELSE EOk(s # 0, FALSE)
+
+VarG(skipE, k, s, nz, op, c, isv, des) ==
+  IF isv /\ ~SvAvail(k) THEN EErr("ValueError", "sv-unsupported")
+  ELSE IF Width(c) < TermLen(op) THEN EErr("ValueError", "op-too-wide")
+  ELSE IF op = "cplx"
+       THEN LET re == VarReal(skipE, k, s, nz, "X1", c, isv, des)
+                im == VarReal(skipE, k, s, nz, "Z0", c, isv, des)
+            IN IF re.cls # "ok" THEN re ELSE IF im.cls # "ok" THEN im ELSE EOk(s # 0, FALSE)
+  ELSE VarReal(skipE, k, s, nz, op, c, isv, des)
+Var(k, s, nz, op, c, isv, des) == VarG(FALSE, k, s, nz, op, c, isv, des)
+
 \* ---- the object machine ------------------------------------------------------------------------
 Init == /\ phase = "new" /\ kind \in Kinds /\ shots \in ShotVals /\ noise \in BOOLEAN
         /\ midset = FALSE /\ ncalls = 0 /\ last = [act |-> "none"]
@@ -197,10 +226,26 @@ Expect(op, c, isv, des) ==
   /\ ncalls' = ncalls + 1
   /\ UNCHANGED <<phase, kind, shots, noise>>
 
+\* get_variance (stderr = FALSE) or get_standard_error (stderr = TRUE): same refusals; the value is non-negative, and the
+\* standard error of a backend without shots is exactly 0
+Variance(stderr, op, c, isv, des) ==
+  /\ phase = "live" /\ ncalls < MaxCalls
+  /\ ~(kind = "sympy" /\ isv)
+  /\ LET o == Var(kind, shots, noise, op, c, isv, des) IN
+       /\ midset' \in {midset, TRUE}          \* not tracked for this call (re-synchronised by the replay)
+       /\ last' = [act |-> "variance", stderr |-> stderr, op |-> op, c |-> c, isv |-> isv, des |-> des, out |-> o,
+                   alt |-> VarG(TRUE, kind, shots, noise, op, c, isv, des),
+                   kind |-> kind, shots |-> shots, noise |-> noise, midset |-> midset', strict |-> FALSE,
+                   zero |-> (o.cls = "ok" /\ stderr /\ shots = 0),
+                   mayempty |-> (o.cls = "ok" /\ MayBeEmpty(shots, c, des))]
+  /\ ncalls' = ncalls + 1
+  /\ UNCHANGED <<phase, kind, shots, noise>>
+
 Next == \/ Create
         \/ \E s \in ShotVals : SetShots(s)
         \/ \E c \in Circs, rsv \in BOOLEAN, isv \in BOOLEAN, des \in Dess, smid \in BOOLEAN : Simulate(c, rsv, isv, des, smid)
         \/ \E op \in Ops, c \in Circs, isv \in BOOLEAN, des \in Dess : Expect(op, c, isv, des)
+        \/ \E se \in BOOLEAN, op \in Ops, c \in Circs, isv \in BOOLEAN, des \in Dess : Variance(se, op, c, isv, des)
 
 Spec == Init /\ [][Next]_vars
 
@@ -240,7 +285,11 @@ SampledIffShots == \A a \in AllExp : (CreateOutcome(a.k, a.s, a.nz).cls = "ok" /
 NoSvNoInitial == \A a \in AllExp : (a.isv /\ ~SvAvail(a.k)) => E(a).cls = "ValueError"
 
 \* action property: a call never changes the settings of the object
-SettingsStable == [][(last'.act \in {"simulate", "expect"}) => (kind' = kind /\ shots' = shots /\ noise' = noise /\ phase' = phase)]_vars
+\* the variance route refuses at least whenever the expectation route of the same call does, except that it never needs
+\* the statevector shortcut
+VarRefusesWithExp == \A a \in AllExp : (E(a).cls # "ok" /\ E(a).tag \in {"sv-unsupported", "op-too-wide"}) =>
+                        Var(a.k, a.s, a.nz, a.op, a.c, a.isv, a.des).tag = E(a).tag
+SettingsStable == [][(last'.act \in {"simulate", "expect", "variance"}) => (kind' = kind /\ shots' = shots /\ noise' = noise /\ phase' = phase)]_vars
 MidSticky == [][midset => midset']_vars
 
 ExportTr == (Export /\ last.act # "none") => PrintT(<<"TR", ToJson(last)>>)
